@@ -17,11 +17,13 @@ PROP_OPS = {
 QUICK4 = set(CHECKED) | set(UNARY) | {'new_node', 'append_value', 'clear'}
 NEEDS_NODES = set(INSERTS) | set(UNARY) | {'append_value'}
 HEAVY = set(INSERTS) | {'remove', 'remove_subtree'}
+EMBEDDABLE = set(INSERTS) | {'detach', 'remove', 'remove_subtree'}      # operations that neither grow the vector nor rebuild it
 
 
 def weight(job):
     w = {0: 0.1, 1: 0.3, 2: 2, 3: 15, 4: 75, 5: 400, 6: 900}.get(job['N'], 1000)
     if job.get('op') == 'remove_subtree' and job['N'] >= 4: w *= (1 if job.get('fix_x') is not None else 4)
+    if job.get('embedded') and job.get('kind') == 'mutator': w *= 2.5
     if job.get('kind', '').startswith('c17'):
         return {0: 0.1, 1: 0.5, 2: 5, 3: 40, 4: 100}.get(job['N'], 1000)
     if job.get('kind') == 'custom' and job.get('func') == 'run_clone_from_job':
@@ -86,6 +88,14 @@ def mutator_jobs(prop, tier):
                 # partition is in the thorough tier. By the symmetry of slot numbering this pair stands for most others, but that
                 # is a heuristic of the quick tier, not part of the claim.
                 jobs.append({'kind': 'mutator', 'op': op, 'N': 5, 'cfg': cfg, 'feat': 'std', 'props': [prop], 'fix_t': 1, 'fix_x': 2})
+            if cfg == 'dev' and op in EMBEDDABLE:
+                # embedded mode: the N modelled slots (a link-closed component together with the whole free list) at symbolic positions
+                # of an arena of symbolic length <= 2^17 whose other slots are live nodes that no link leads to
+                for N in ((2, 3) if tier == 'quick' else (2, 3, 4)):
+                    if N == 4 and op == 'remove_subtree':
+                        for x in range(1, 5): jobs.append({'kind': 'mutator', 'op': op, 'N': N, 'cfg': cfg, 'feat': 'std', 'props': [prop], 'fix_x': x, 'embedded': True})
+                    else:
+                        jobs.append({'kind': 'mutator', 'op': op, 'N': N, 'cfg': cfg, 'feat': 'std', 'props': [prop], 'embedded': True})
             if tier == 'thorough' and op in CHECKED and cfg == 'dev':
                 # N = 5 partitioned by the slot numbers of the two arguments (the union of the 25 sub-jobs is the same claim)
                 N = 5
